@@ -8,9 +8,9 @@ INVARIANTS = ["PositionalEqKeyword", "KeywordOrderIrrelevant", "DefaultsPresent"
               "FreeVerbatim", "OneValuePerKey"]
 
 CONSTS = {
-    ("quick", "graph"): dict(MaxEntries=3, Keys="KeysGraphQ", Values="ValsQ", DialectName='"graph"', FaultEntries="Faults"),
-    ("quick", "coarse"): dict(MaxEntries=2, Keys="KeysGraphQ", Values="ValsQ", DialectName='"coarse"', FaultEntries="Faults"),
-    ("quick", "atom"): dict(MaxEntries=3, Keys="KeysAtomQ", Values="ValsQ", DialectName='"atom"', FaultEntries="Faults"),
+    ("quick", "graph"): dict(MaxEntries=3, Keys="KeysGraphQ", Values="ValsQ", DialectName='"graph"', FaultEntries="FaultsQ"),
+    ("quick", "coarse"): dict(MaxEntries=2, Keys="KeysGraphQ", Values="ValsQ", DialectName='"coarse"', FaultEntries="FaultsQ"),
+    ("quick", "atom"): dict(MaxEntries=3, Keys="KeysAtomQ", Values="ValsQ", DialectName='"atom"', FaultEntries="FaultsQ"),
     ("thorough", "graph"): dict(MaxEntries=3, Keys="KeysGraph", Values="ValsT", DialectName='"graph"', FaultEntries="Faults"),
     ("thorough", "coarse"): dict(MaxEntries=3, Keys="KeysGraph", Values="ValsT", DialectName='"coarse"', FaultEntries="Faults"),
     ("thorough", "atom"): dict(MaxEntries=3, Keys="KeysAtom", Values="ValsT", DialectName='"atom"', FaultEntries="Faults"),
